@@ -444,6 +444,61 @@ func (m *coreMon) check(op string, res string, cur *coreSnap) {
 			}
 		}
 	}
+	// ---- C07 / C20: the standalone PunishSequencerProposal changes no role, forks nothing, touches no
+	// record field other than the bond, and is accepted from the governance authority only
+	if f[0] == "punish" && res == "ok" {
+		if kv["auth"] != "gov" {
+			m.violate("C07/punish/accepted-without-governance-authority", op)
+		}
+		for ri, r := range cur.Ras {
+			if !r.Exists || ri >= len(prev.Ras) || !prev.Ras[ri].Exists {
+				continue
+			}
+			pr := prev.Ras[ri]
+			if r.Prop != pr.Prop || r.Succ != pr.Succ {
+				m.violate("C07/punish/role-changed-by-punish-proposal", fmt.Sprintf("r%d proposer %s -> %s successor %s -> %s by %s", ri, coreActorName(pr.Prop), coreActorName(r.Prop), coreActorName(pr.Succ), coreActorName(r.Succ), op))
+			}
+			if len(r.Revs) != len(pr.Revs) || r.EvH != pr.EvH || r.CdStart != pr.CdStart {
+				m.violate("C07/punish/fork-or-clock-reset-by-punish-proposal", fmt.Sprintf("r%d by %s", ri, op))
+			}
+		}
+		for i, cq := range cur.Seqs {
+			pq, ok := prev.Seqs[i]
+			if !ok || cq.Ra != pq.Ra || cq.Bonded != pq.Bonded || cq.OptedIn != pq.OptedIn || cq.Notice != pq.Notice || cq.Dishonor != pq.Dishonor ||
+				(coreActorName(i) != f[1] && !cq.Tokens.Equal(pq.Tokens)) {
+				m.violate("C07/punish/record-changed-beyond-the-punished-bond", fmt.Sprintf("a%d %+v -> %+v by %s", i, pq, cq, op))
+			}
+		}
+		if len(cur.Seqs) != len(prev.Seqs) || fmt.Sprint(cur.Nq) != fmt.Sprint(prev.Nq) {
+			m.violate("C07/punish/record-changed-beyond-the-punished-bond", "sequencer set or notice queue changed by "+op)
+		}
+		tgt := int(atoi(strings.TrimPrefix(f[1], "a")))
+		if pq, ok := prev.Seqs[tgt]; ok {
+			role := "non-proposer"
+			switch {
+			case prev.Ras[pq.Ra].Prop == tgt:
+				role = "proposer"
+			case prev.Ras[pq.Ra].Succ == tgt:
+				role = "successor"
+			case !pq.Bonded:
+				role = "unbonded"
+			}
+			m.r.Hit("punish/accepted/" + role)
+			if pq.Tokens.IsZero() {
+				m.r.Hit("punish/accepted/zero-bond")
+			}
+		}
+	}
+	if f[0] == "end" && res == "ok" {
+		for _, r := range prev.Ras {
+			if r.Exists && r.Prop >= 0 && prev.Seqs[r.Prop].Tokens.IsZero() {
+				m.r.Hit("end/zero-bond-proposer")
+				if cq, pq := cur.Seqs[r.Prop], prev.Seqs[r.Prop]; cq.Dishonor > pq.Dishonor {
+					m.r.Hit("end/zero-bond-proposer-dishonored")
+				}
+			}
+		}
+	}
 	// ---- C06 bond decrease classification
 	for i, cq := range cur.Seqs {
 		pq, ok := prev.Seqs[i]
@@ -484,7 +539,8 @@ func (m *coreMon) check(op string, res string, cur *coreSnap) {
 				if !prev.Supply.Sub(cur.Supply).Equal(d) && len(cur.Seqs) > 0 {
 					// several slashes in one block: compare totals below
 				}
-			case f[0] == "fraud" && res == "ok" && kv["punish"] == coreActorName(i):
+			case res == "ok" && ((f[0] == "fraud" && kv["punish"] == coreActorName(i)) || (f[0] == "punish" && f[1] == coreActorName(i))):
+				// a governance punishment: inside a fraud proposal, or the standalone PunishSequencerProposal
 				burned := prev.Supply.Sub(cur.Supply)
 				paid := math.ZeroInt()
 				if rw := kv["rewardee"]; strings.HasPrefix(rw, "m") {
@@ -500,6 +556,9 @@ func (m *coreMon) check(op string, res string, cur *coreSnap) {
 				}
 				if !burned.Add(paid).Equal(d) || paid.GT(d.QuoRaw(2)) {
 					m.violate("C06/punish/not-burned-or-over-rewarded", fmt.Sprintf("a%d lost %s burned %s rewardee got %s", i, d, burned, paid))
+				}
+				if f[0] == "punish" && !cq.Tokens.IsZero() {
+					m.violate("C06/punish/punish-proposal-left-a-bond", fmt.Sprintf("a%d bond %s -> %s", i, pq.Tokens, cq.Tokens))
 				}
 			default:
 				m.violate("C06/decrease/bond-decreased-by-unrelated-op", fmt.Sprintf("a%d -%s by %s (res %s)", i, d, op, res))
@@ -665,6 +724,9 @@ func (c *coreGen) next(s *coreSnap, inBlock *bool, step int) string {
 			c.r.Hit("packet-above-latest-height")
 		}
 		return fmt.Sprintf("packet r%d ph=%d seq=%d t=%s", ri, ph, c.pkSeq, []string{"R", "A", "T"}[g.Intn(3)])
+	}
+	if len(allSeqs) > 0 && g.Chance(3+map[string]int{"C06": 4, "C07": 4, "C08": 3, "C11": 2}[c.focus]) {
+		return c.genPunish(s, ri, members, allSeqs)
 	}
 	w := g.Intn(100)
 	switch {
@@ -838,6 +900,73 @@ func (c *coreGen) genUpdate(s *coreSnap, ri int) string {
 	return fmt.Sprintf("update r%d by=a%d start=%d num=%d bdlen=%d rev=%d last=%d seqerr=%s ts=%s drs=%d rooterr=%s%s", ri, by, start, num, bdlen, rev, last, seqerr, ts, drs, rooterr, drs0)
 }
 
+// genPunish: the standalone governance PunishSequencerProposal — against the proposer / another member
+// of the rollapp / a sequencer of another rollapp / an unbonded sequencer / an address that is no
+// sequencer; rewardee none / an ordinary actor (possibly the punished one) / the blocked module account m0
+func (c *coreGen) genPunish(s *coreSnap, ri int, members, allSeqs []int) string {
+	g := c.g
+	ra := s.Ras[ri]
+	tgt := -1
+	switch x := g.Intn(100); {
+	case x < 35 && ra.Prop >= 0:
+		tgt = ra.Prop
+		c.r.Hit("punish/target-proposer")
+	case x < 60 && len(members) > 0:
+		tgt = members[g.Intn(len(members))]
+		c.r.Hit("punish/target-member")
+	case x < 75:
+		var others []int
+		for _, i := range allSeqs {
+			if s.Seqs[i].Ra != ri {
+				others = append(others, i)
+			}
+		}
+		if len(others) > 0 {
+			tgt = others[g.Intn(len(others))]
+			c.r.Hit("punish/target-other-rollapp")
+		}
+	case x < 88:
+		var unb []int
+		for _, i := range allSeqs {
+			if !s.Seqs[i].Bonded {
+				unb = append(unb, i)
+			}
+		}
+		if len(unb) > 0 {
+			tgt = unb[g.Intn(len(unb))]
+			c.r.Hit("punish/target-unbonded")
+		}
+	default:
+		for k := 0; k < c.h.p.NActors+2; k++ {
+			if _, ok := s.Seqs[k]; !ok {
+				tgt = k
+				break
+			}
+		}
+		c.r.Hit("punish/target-not-a-sequencer")
+	}
+	if tgt < 0 {
+		tgt = allSeqs[g.Intn(len(allSeqs))]
+	}
+	rewardee := "-"
+	switch x := g.Intn(100); {
+	case x < 25:
+		c.r.Hit("punish/rewardee-none")
+	case x < 80:
+		rewardee = fmt.Sprintf("a%d", c.pickActor())
+		c.r.Hit("punish/rewardee-ordinary")
+	default:
+		rewardee = "m0"
+		c.r.Hit("punish/rewardee-blocked")
+	}
+	auth := "gov"
+	if g.Chance(8) {
+		auth = fmt.Sprintf("a%d", c.pickActor())
+		c.r.Hit("punish/wrong-authority")
+	}
+	return fmt.Sprintf("punish a%d rewardee=%s auth=%s", tgt, rewardee, auth)
+}
+
 func (c *coreGen) genFraud(s *coreSnap, ri int, members []int) string {
 	g := c.g
 	ra := s.Ras[ri]
@@ -1005,6 +1134,9 @@ func runCore(t *testing.T, id string) {
 		for _, l := range tr {
 			if strings.HasPrefix(l, "fraud ") && strings.Contains(l, "rewardee=m") {
 				r.Hit("fraud/blocked-rewardee")
+			}
+			if strings.HasPrefix(l, "punish ") {
+				r.Hit("corpus/punish-proposal")
 			}
 		}
 	}
